@@ -1355,7 +1355,9 @@ class ContinuousSpace:
             self._agent_to_index[agent] = idx
             self._index_to_agent[idx] = agent
         # Since dicts are ordered by insertion, we can iterate through agents keys
-        self._agent_points = np.array([agent.pos for agent in self._agent_to_index])
+        self._agent_points = np.array(
+            [agent.pos for agent in self._agent_to_index]
+        ).reshape(-1, 2)
 
     def _invalidate_agent_cache(self):
         """Clear cached data of agents and positions in the space."""
